@@ -11,8 +11,8 @@ CHECKS = {
    "In-flight value is defined on the two current commitments of each channel (max of views outgoing, min of views incoming), as fixed in DESIGN 3.4.",
    "3.4"),
  "C17": (True, "macenum", "model_checking",
-   "exhaustive enumeration of records / mutation lists over a 3-byte alphabet on the real MAC functions of both sides, collision search by hash map",
-   "Every record (key of 1-2 characters, version bytes, value of 0-2 bytes over {0x00,'a','b'}) is written with prepare_value_for_put and its stored bytes are presented under every other (key, version) together with shifted/prefixed bytes, and with every single-bit flip, truncation and extension; every list of <= 2 records (plus merged records) is tagged with compute_shared_hmac on the signer side and the storage-library side (compared with each other), collisions between different lists are searched exhaustively; replay under a new nonce, modified and truncated tags are refused.",
+   "exhaustive enumeration of records / mutation lists over a 3-byte alphabet on the real MAC functions of both sides, collision search by hash map; exhaustive enumeration of provider responses through the real start-up read (second harness crate on the async stack)",
+   "Every record (key of 1-2 characters, version bytes, value of 0-2 bytes over {0x00,'a','b'}) is written with prepare_value_for_put and its stored bytes are presented under every other (key, version) together with shifted/prefixed bytes, and with every single-bit flip, truncation and extension; every list of <= 2 records (plus merged records) is tagged with compute_shared_hmac on the signer side and the storage-library side (compared with each other), collisions between different lists are searched exhaustively; replay under a new nonce, modified and truncated tags are refused. The start-up read of the whole external state (ExternalPersistWithHelper::init_state, as used by vlsd and vls-proxy) is driven on a tokio runtime with 3114 provider responses: stored lists of <= 2 records x 9 edits of the returned list (incl. dropping some or all records) x 9 tags a provider without the secret can attach (replayed, put tags, made up, damaged); accepted => authentic under this request's fresh nonce for exactly the returned records.",
    "HMAC-SHA256 trusted. The unframed-MAC collisions found on the unchanged tree are recorded as known findings, one key per boundary that moves.",
    "7.2"),
  "C18": (True, "keysrel", "model_checking",
